@@ -414,6 +414,10 @@ func (ex *Exec) fsIntrinsic(fn *ssa.Function, name string, args []Value) (Value,
 		case "encodeString", "encodeBytes":
 			s.ntok++
 			tok := fmt.Sprintf("H%d", s.ntok)
+			if pad := ex.bounds["TOKPAD"]; pad > 0 {
+				// the real encoding grows with its input; this run models long inputs: every token is pad bytes long
+				tok += strings.Repeat("z", int(pad)-len(tok))
+			}
 			if r, isRope := args[0].(Rope); isRope {
 				// a diagnostic text with a rendered symbolic number in it: the number is replaced by a placeholder
 				var bs []*Term
